@@ -92,6 +92,21 @@ def g_eval(repo):
     return g
 
 
+def g_cnf(repo):
+    """the CNF combinator proved unbounded, for every eval_fn obeying the clause contract (closure spec via call_ensures)"""
+    g = GroupBuild('cnf', repo)
+    eval_common(g)
+    E = RULES + 'eval.rs'
+    g.fn('U-cnf-v', E, 'eval_conjunction_clauses', spec='cnf_proved.spec', props=['C01', 'C02', 'C04', 'C08'],
+         assumed_as=[('eval_conjunction_clauses.spec', '''old(resolver).stack().len() >= 1,
+        conjunctions@.len() < 0x7fff_ffff,
+        forall|i: int| 0 <= i < conjunctions@.len() ==> (#[trigger] conjunctions@[i])@.len() < 0x7fff_ffff,
+        forall|t: &'value T, c: &mut dyn EvalContext<'value, 'loc>| c.stack().len() >= 1 ==> call_requires(eval_fn, (t, c)),
+        forall|t: &'value T, c: &mut dyn EvalContext<'value, 'loc>, r: Result<Status>| #[trigger] call_ensures(eval_fn, (t, c), r) ==>
+            sem_same(c, final(c)) && clause_post(c.stack(), final(c).stack(), r)''')])
+    return g
+
+
 def g_eval_blocks(repo):
     """query blocks and type blocks: need the assumed ValueScope model (R12)"""
     g = GroupBuild('eval_blocks', repo)
@@ -426,4 +441,4 @@ def g_tables(repo):
     return g
 
 
-GROUPS = {'failed': g_failed, 'structured': g_structured, 'validate_data': g_validate_data, 'memo': g_memo, 'memo_block': g_memo_block, 'compare': g_compare, 'tables': g_tables, 'index2': g_index2, 'index': g_index, 'tracker': g_tracker, 'validate': g_validate, 'eval_blocks': g_eval_blocks, 'report': g_report, 'merge': g_merge, 'status': g_status, 'exit': g_exit, 'eval': g_eval, 'eval_disp': g_eval_disp}
+GROUPS = {'cnf': g_cnf, 'failed': g_failed, 'structured': g_structured, 'validate_data': g_validate_data, 'memo': g_memo, 'memo_block': g_memo_block, 'compare': g_compare, 'tables': g_tables, 'index2': g_index2, 'index': g_index, 'tracker': g_tracker, 'validate': g_validate, 'eval_blocks': g_eval_blocks, 'report': g_report, 'merge': g_merge, 'status': g_status, 'exit': g_exit, 'eval': g_eval, 'eval_disp': g_eval_disp}
